@@ -6,7 +6,7 @@ from .. import inputs
 from . import geom
 
 SPEC = dict(
-    lean_modules=['SmVerif.Props.C02'],
+    lean_modules=['SmVerif.Props.C02', 'SmVerif.Props.PoseOps'],
     groups=['Poses', 'Quaternions', 'Quats', 'Transforms3d', 'Transforms2d'],
     expected_untranslatable=('trinterp_T', 'trinterp_T_nostart', 'UQ_interp', 'UQ_interp_shortest'),
     partial=['negative powers go through numpy matrix_power (LAPACK inverse): explored only; twist composition '
@@ -79,6 +79,32 @@ def _impl(tier, seed, search):
                 return mat(X ** k), mat(P_)
             ok, r = L.noraise(f'{cname}:pow', power, dict(inp, n=k), 'X ** n')
             if ok: L.close(f'{cname}:pow', r[0], r[1], 1e-9, max(1.0, float(np.max(np.abs(r[1])))), dict(inp, n=k))
+        # multi-valued objects obey the same laws element by element (inverse, quotient, power, product)
+        if i % 4 == 0:
+            for cname, mk in classes:
+                xs = [mk() for _ in range(3)]; ys = [mk() for _ in range(3)]
+                cls = type(xs[0])
+                Xs = cls([mat(x) for x in xs], check=False); Ys = cls([mat(y) for y in ys], check=False)
+                inp = dict(cls=cname, X=[mat(x) for x in xs], Y=[mat(y) for y in ys])
+                E = mat(cls())
+                def each(law, got, want, what):
+                    ok, r = L.noraise(f'{cname}:multi-{law}', got, inp, what)
+                    if not ok: return
+                    if not hasattr(r, 'data') or len(r.data) != len(want):
+                        L.count(f'{cname}:multi-{law}'); L.fail(f'{cname}:multi-{law}:length', f'{what} on 3-valued objects has the wrong length / type', inp); return
+                    for a_, w_ in zip(r.data, want):
+                        L.close(f'{cname}:multi-{law}', np.asarray(a_, float), w_, 1e-9, max(1.0, float(np.max(np.abs(w_)))), inp,
+                                what=f'{what} on a multi-valued object differs from the single-valued result', sig=f'{cname}:multi-{law}')
+                each('inv', lambda: Xs.inv(), [np.linalg.inv(mat(x)) for x in xs], 'X.inv()')
+                each('mul', lambda: Xs * Ys, [mat(x) @ mat(y) for x, y in zip(xs, ys)], 'X * Y')
+                each('div', lambda: Xs / Ys, [mat(x) @ np.linalg.inv(mat(y)) for x, y in zip(xs, ys)], 'X / Y')
+                each('div1', lambda: Xs / ys[0], [mat(x) @ np.linalg.inv(mat(ys[0])) for x in xs], 'X / y')
+                each('rdiv1', lambda: xs[0] / Ys, [mat(xs[0]) @ np.linalg.inv(mat(y)) for y in ys], 'x / Y')
+                kk = int(g.integers(-3, 4))
+                each('pow', lambda: Xs ** kk, [np.linalg.matrix_power(mat(x) if kk >= 0 else np.linalg.inv(mat(x)), abs(kk)) for x in xs], f'X ** {kk}')
+                ok, r = L.noraise(f'{cname}:multi-prod', lambda: mat(Xs.prod()), inp, 'X.prod()')
+                if ok: L.close(f'{cname}:multi-prod', r, mat(xs[0]) @ mat(xs[1]) @ mat(xs[2]), 1e-9, max(1.0, float(np.max(np.abs(r)))), inp)
+                L.close(f'{cname}:multi-inverse', [np.asarray(a_, float) @ mat(x) for a_, x in zip(Xs.inv().data, xs)] if True else None, [E] * 3, 1e-9, tscale(*xs) * 1.0, inp)
         # unit quaternions, up to sign
         a, c, d = (UnitQuaternion(inputs.unitq(g)) for _ in range(3))
         def qclose(law, x, y, inp):
